@@ -1,22 +1,45 @@
-"""C07 — every constructible code is a valid [[n,k]] stabilizer code (five lattice families + basic codes)"""
+"""C07 — every constructible code is a valid [[n,k]] stabilizer code (five lattice families + basic codes)
+
+Two layers of generators:
+* qv/c07_access.py — read-back of `operator()` at every in-lattice / wrapped / refused index after every kind of write,
+  Pauli-object HISTORIES (one object, random site / plaquette / path / logical / to_bsf / operator / copy /
+  new_pauli(bsf) / == calls, to_bsf compared with an independently accumulated bsf), and the constructor value universe
+  (integral-valued non-ints, every numpy integer width, … in each position) with the monitor "rejected, or a usable
+  code with integral n_k_d";
+* qv/families/<family>.py — per-size structural cases (stabilizers, logicals, n_k_d, plaquette list, flatten map over a
+  margin, single site / plaquette writes) compared with the Lean model, plus C07 evaluated on the real matrices.
+Any exception the real code raises where the property promises an answer is a monitor failure (concrete call in the
+replay), not a harness crash.
+"""
 import importlib
-import json
+import os
+import sys
+import traceback
 
 RULE = ('for every accepted size up to the bound: stabilizers, logical_xs, logical_zs, n_k_d, plaquette index list, '
         'flatten map over all indices in a margin around the lattice, site/plaquette operators and read-back, compared '
-        'exactly with the Lean model; constructor outcomes over a value universe (ints, bools, floats, str, None, numpy '
-        'ints); and C07 itself (commutation, pairing, GF(2) rank n-k by elimination, logical independence, shapes) '
-        'evaluated directly on the real matrices. non-trivial = every case except index-kind predicates')
+        'exactly with the Lean model; operator() read-back of every in-lattice site and of wrapped / refused indices '
+        'after every kind of write against the bsf at the independently stated flattened index (and the Lean operatorAt '
+        'where the model has one); random call histories on one Pauli object against an independently accumulated '
+        'bsf (to_bsf after every step / at random read points, copy independence, new_pauli(bsf) view semantics, ==); '
+        'constructor outcomes over a value universe (ints, bools, integral and fractional floats, non-finite floats, '
+        'numpy floats, Fraction, Decimal, complex, every numpy integer width, numpy bool, 0-d arrays, str, bytes, None, '
+        'containers) in each argument position with the monitor "rejected with ValueError/TypeError, or a usable code '
+        'with integral n_k_d"; and C07 itself (commutation, pairing, GF(2) rank n-k by elimination, logical '
+        'independence, shapes) evaluated directly on the real matrices. non-trivial = every case except index-kind '
+        'predicates and reads that yield I / IndexError')
 
 FAMILIES = ['planar', 'rotatedplanar', 'toric', 'rotatedtoric', 'color666', 'basic']
 
 
 def run(ctx):
+    from qv import c07_access
     done = []
-    import os
     only = os.environ.get('QV_FAMILIES')
+    only = only.split(',') if only else None
+    mon = c07_access.run(ctx, only=only)
     for fam in FAMILIES:
-        if only and fam not in only.split(','):
+        if only and fam not in only:
             continue
         try:
             m = importlib.import_module('qv.families.' + fam)
@@ -24,13 +47,25 @@ def run(ctx):
             continue
         if not hasattr(m, 'c07_cases'):
             continue
-        m.c07_cases(ctx, getattr(m, 'C07_BOUND', {}).get(ctx.tier, ctx.scale(5, 9)))
+        try:
+            m.c07_cases(ctx, getattr(m, 'C07_BOUND', {}).get(ctx.tier, ctx.scale(5, 9)))
+        except Exception as ex:
+            # an exception raised inside qecsim while the structural cases are generated: every call made there is one
+            # the property (or the documentation of the call) promises an answer for
+            if not c07_access.from_qecsim(sys.exc_info()[2]):
+                raise
+            mon.fail(fam, 'exc', 'the real code raised {} where the property promises an answer'.format(
+                type(ex).__name__), {'family': fam, 'traceback': traceback.format_exc()[-1500:]})
         done.append(fam)
     ctx.extra['families'] = done
     return ctx.finish(RULE, search=search)
 
 
 def search(m):
+    from qv import c07_access
+    meta = m.get('meta') or {}
+    if meta.get('tag') == 'ctor' and meta.get('labels'):
+        return c07_access.ctor_search(meta)
     return None
 
 
